@@ -15,7 +15,7 @@ Operand references are integers resolved against the list of values *visible* at
         + visible(parent op of R)
   in graph mode the ops directly in the module body additionally see every result of the body
   (use before definition, as MLIR allows in graph regions).
-Successor references are block indices modulo the number of blocks of the region.
+Successor references are indices into the non-entry blocks of the region (none if single-block).
 """
 from __future__ import annotations
 
@@ -108,7 +108,9 @@ def _build_region(rec_region, out: Built, plan):
         for orec in brec.get("ops", []):
             b.add_op(_build_op(orec, out, plan))
         t = brec.get("t") or {}
-        succ = [blocks[s % len(blocks)] for s in t.get("s", [])]
+        # MLIR forbids branching to the entry block of a region (xDSL does not verify it, and a
+        # label-less entry block cannot be named in text), so successors are non-entry blocks only
+        succ = [blocks[1 + s % (len(blocks) - 1)] for s in t.get("s", [])] if len(blocks) > 1 else []
         top = _mk_op(t, succ, term=True)
         for r, hnt in zip(top.results, t.get("h", [])):
             _set_hint(r, hnt)
